@@ -246,10 +246,15 @@ func VfC11_ParseImpliedComdat() {
 	isFunc := vfChoice("func", 2) == 1
 	g, c := enc.GlobalName(s), enc.ComdatName(s)
 	var src string
+	// the input names the comdat explicitly or uses the bare form itself
+	use := "comdat(" + c + ")"
+	if vfChoice("bare-in-input", 2) == 1 {
+		use = "comdat"
+	}
 	if isFunc {
-		src = c + " = comdat any\n$other = comdat any\ndefine void " + g + "() comdat(" + c + ") {\n\tret void\n}\n"
+		src = c + " = comdat any\n$other = comdat any\ndefine void " + g + "() " + use + " {\n\tret void\n}\n"
 	} else {
-		src = c + " = comdat any\n$other = comdat any\n" + g + " = global i32 0, comdat(" + c + ")\n"
+		src = c + " = comdat any\n$other = comdat any\n" + g + " = global i32 0, " + use + "\n"
 	}
 	m, err := ParseString("t.ll", src)
 	vfReach("C11.parse.implied-comdat")
